@@ -134,6 +134,20 @@ fn gen_tree(rng: &mut Rng, tag: &str) -> Tree {
     t
 }
 
+/// A set with exactly the names and per-file lengths of `prev` and different contents (two
+/// generations of one circuit shape look like this: same files, same sizes, other bytes).
+fn same_shape_tree(rng: &mut Rng, prev: &Tree) -> Tree {
+    let mut t = Tree::new();
+    for (name, bytes) in prev.iter() {
+        let mut b = rng.bytes(bytes.len());
+        if !b.is_empty() && b == *bytes {
+            b[0] ^= 0x5a;
+        }
+        t.insert(name.clone(), b);
+    }
+    t
+}
+
 /// Every directory under `parent` (one level) whose tree equals `want`.
 fn find_copy(parent: &Path, want: &Tree) -> Vec<PathBuf> {
     let mut v = vec![];
@@ -387,7 +401,11 @@ pub fn run(ctx: &Ctx) {
                         continue;
                     }
                     let prev = gen_tree(&mut rng, "PREV");
-                    let new = gen_tree(&mut rng, "NEW!");
+                    let same_shape = rng.chance(1, 3);
+                    let new = if same_shape { same_shape_tree(&mut rng, &prev) } else { gen_tree(&mut rng, "NEW!") };
+                    if same_shape {
+                        t.class("new set has the names and lengths of the previous set");
+                    }
                     setup(&sb, init, &prev, &new);
                     let res = match spawn(&["c23-child".into(), sb.to_string_lossy().to_string(), sched.clone(), "-1".into()]) {
                         Ok(r) => r,
@@ -404,7 +422,7 @@ pub fn run(ctx: &Ctx) {
                         t.nontrivial(fnv_str(&format!("{:?}|{}", init, consumed)));
                     }
                     for (sig, d) in judge_state(&sb, init, &prev, &new, &res) {
-                        t.violation(sig, format!("{} [initial={:?}, rename actions={} (o=ok,f=fail,b=crash-before,a=crash-after)]", d, init, consumed), json!({"kind": "c23", "init": format!("{:?}", init), "schedule": consumed, "unlink_crash": -1, "seed_round": round}));
+                        t.violation(sig, format!("{} [initial={:?}, rename actions={} (o=ok,f=fail,b=crash-before,a=crash-after)]", d, init, consumed), json!({"kind": "c23", "init": format!("{:?}", init), "schedule": consumed, "unlink_crash": -1, "seed_round": round, "same_shape": same_shape}));
                     }
                     if job < 40 && wi == 0 {
                         t.sample(json!({"initial": format!("{:?}", init), "rename_actions": consumed, "crashed": res.crashed, "returned_ok": res.ret_ok}));
@@ -424,7 +442,7 @@ pub fn run(ctx: &Ctx) {
                             t.class(&format!("{:?}|unlink-crash|{}", init, if r2.crashed { "crashed" } else { "returned" }));
                             t.nontrivial(fnv_str(&format!("{:?}|{}|u{}", init, consumed, k)));
                             for (sig, d) in judge_state(&sb, init, &prev, &new, &r2) {
-                                t.violation(sig, format!("{} [initial={:?}, rename actions={}, process died after {} unlinkat calls]", d, init, consumed, k), json!({"kind": "c23", "init": format!("{:?}", init), "schedule": consumed, "unlink_crash": k}));
+                                t.violation(sig, format!("{} [initial={:?}, rename actions={}, process died after {} unlinkat calls]", d, init, consumed, k), json!({"kind": "c23", "init": format!("{:?}", init), "schedule": consumed, "unlink_crash": k, "same_shape": same_shape}));
                             }
                         }
                     }
@@ -576,7 +594,7 @@ pub fn replay(case: &Value) -> Result<bool, String> {
     let sb = std::env::temp_dir().join(format!("qpv-c23-replay-{}", std::process::id()));
     let mut rng = Rng::new(1);
     let prev = gen_tree(&mut rng, "PREV");
-    let new = gen_tree(&mut rng, "NEW!");
+    let new = if case["same_shape"].as_bool().unwrap_or(false) { same_shape_tree(&mut rng, &prev) } else { gen_tree(&mut rng, "NEW!") };
     setup(&sb, init, &prev, &new);
     let res = spawn(&["c23-child".into(), sb.to_string_lossy().to_string(), sched, k.to_string()])?;
     let v = judge_state(&sb, init, &prev, &new, &res);
